@@ -131,6 +131,15 @@ CLAIMED = {
     note=NOTE_COMMON + " SQL ORDER BY/LIMIT semantics trusted; time zone UTC (last_update.timestamp() on naive values).",
     technique="Lean 4 proof (induction over call sequences) + differential correspondence on SQLite",
     ref="§5 C19"),
+ "C20": dict(
+    text=("Lean theorems: for every path (incl. paths containing the state keywords) the parsed HSM state depends only on the flags/action "
+          "after the path prefix; a restore-wait that ends leaves no bookkeeping for the file, for every answer sequence; ready only after a "
+          "resident answer; open only when resident; release selects only restored copies in order and just until the headroom is met; "
+          "refresh sets ready = reported residency. Counter-example for the pinned hsm_restoring (F4). Tie: real LFS parsers with scripted "
+          "run_command, real LustreHSMNodeIO (_restore_wait, release_files, idle state check, open) with a scripted LFS object."),
+    note=NOTE_COMMON + " Real lfs/HSM behaviour is a parameter; residency is what the index/lfs report; multi-iteration HSM histories are exercised only at the level of these steps.",
+    technique="Lean 4 proof (string lemma for all paths, bookkeeping invariant over answer sequences) + differential correspondence",
+    ref="§5 C20"),
 }
 
 checks = []
